@@ -87,7 +87,9 @@ func runParam(c paramCase) (o paramObs) {
 		args[i] = paramValue(a)
 	}
 	env := interp.NewExecEnv("sh", args...)
-	env.Opts |= interp.NoGlob
+	if c.P != "-" {
+		env.Opts |= interp.NoGlob // no pathname expansion of the results; for $- no option is set (it is null then)
+	}
 	if c.NoUnset {
 		env.Opts |= interp.NoUnset
 	}
